@@ -195,12 +195,12 @@ variable {α : Type} (o : GroupOps α) (H : TagHash)
 
 /-- the verdict once the control block is split into its three fields -/
 def checkFields (q script : Bytes) (c0 : Nat) (xb path : Bytes) (m : Nat) : Except Err Bool := do
-  let t ← tapTweak o H xb (foldPath H (leafHash H (c0 &&& 254) script) path m)
+  let t ← tapTweak o H xb (foldPath H (leafHash H (c0 &&& LEAF_MASK) script) path m)
   match o.liftX (ofBE xb : Nat) with
   | none => .error .key
   | some P =>
     let Q := o.add P (o.mul t o.gen)
-    pure (o.x Q == (ofBE q : Nat) && c0 &&& 1 == (o.y Q % 2).toNat)
+    pure (o.x Q == (ofBE q : Nat) && c0 &&& PARITY_MASK == (o.y Q % 2).toNat)
 
 theorem check_eq (q script : Bytes) (c0 : UInt8) (xb path : Bytes) (m : Nat)
     (hx : xb.length = 32) (hp : path.length = 32 * m) (hm : m ≤ 128) :
@@ -213,7 +213,8 @@ theorem check_eq (q script : Bytes) (c0 : UInt8) (xb path : Bytes) (m : Nat)
     show (c0 :: (xb ++ path)).drop 33 = path
     rw [List.drop_succ_cons, List.drop_append_of_le_length (by omega), List.drop_of_length_le (by omega)]
     simp
-  have h2 : ((c0 :: (xb ++ path)).drop 1).take 32 = xb := by
+  have h2 : ((c0 :: (xb ++ path)).drop 1).take (CONTROL_HEAD - 1) = xb := by
+    show ((c0 :: (xb ++ path)).drop 1).take 32 = xb
     rw [List.drop_succ_cons, List.drop_zero, List.take_append_of_le_length (by omega), List.take_of_length_le (by omega)]
   simp only [h1, h2, List.headD_cons, LEAF_MASK, PARITY_MASK]
   rfl
